@@ -361,5 +361,99 @@ pub fn run(rep: &mut Report, thorough: bool) {
         &mut rep.sink,
     );
     rep.stage("leading-garbage", "8 leading byte strings (some killing the matcher, some keeping it alive) x TCP payloads x 4 segmentations x {v4,v6}: judged by the reference stream model", engine::product(&gdims), t0);
+    // near misses at the observable level: datagrams / first segments whose leading bytes complete
+    // NO published signature (one literal byte of the signature altered; or, for the end-anchored
+    // forms, trailing bytes after a complete match) must not be answered by a signature-dispatched
+    // responder (a DNS answer is the only one allowed: the DNS fallback is not signature-dispatched)
+    let t0 = std::time::Instant::now();
+    let sigs2 = crate::sig::signatures();
+    let mut near: Vec<(String, Vec<u8>)> = Vec::new();
+    for pl in pls.iter() {
+        let n = match crate::sig::dispatch(&sigs2, &pl.bytes, true) {
+            crate::sig::Dispatch::Matched(_, _, n) => n,
+            _ => continue,
+        };
+        for i in 0..n.min(pl.bytes.len()) {
+            for x in [0x01u8, 0x20, 0x80] {
+                let mut v = pl.bytes.clone();
+                v[i] ^= x;
+                near.push((format!("{}:byte{}^{:02x}", pl.name, i, x), v));
+            }
+        }
+        for t in [1usize, 2, 4, 8, 100] {
+            let mut v = pl.bytes.clone();
+            v.extend(std::iter::repeat(0u8).take(t));
+            near.push((format!("{}:tail{}", pl.name, t), v.clone()));
+            let mut w = pl.bytes.clone();
+            w.extend(std::iter::repeat(0xa5u8).take(t));
+            near.push((format!("{}:tailA5x{}", pl.name, t), w));
+        }
+    }
+    let responder = |rep: &[u8]| -> &'static str {
+        if rep.starts_with(b"HTTP/1.") {
+            "http"
+        } else if rep.starts_with(b"SSH-") {
+            "ssh"
+        } else if rep.starts_with(b"Gh0st") {
+            "ghost"
+        } else if rep.len() >= 20 && rep[0] == 0x01 && rep[1] == 0x01 {
+            "stun"
+        } else if rep.len() >= 8 && (rep[4..8] == [0xff, b'S', b'M', b'B'] || rep[4..8] == [0xfe, b'S', b'M', b'B']) {
+            "smb"
+        } else if (rep.len() >= 12 && rep[4..8] == [0, 0, 0, 1] && rep[8..12] == [0, 0, 0, 0]) || (rep.len() >= 16 && rep[0] & 0x80 != 0 && rep[8..12] == [0, 0, 0, 1]) {
+            "rpc"
+        } else {
+            "other"
+        }
+    };
+    let ndims = [near.len() as u64, 2, 2];
+    let opts = RunOpts::new("near-miss").stateful().chunk(64).no_monitor();
+    let cfgn = cfg.clone();
+    engine::run(
+        &cfg,
+        engine::product(&ndims),
+        &opts,
+        |i| {
+            let d = engine::unrank(i, &ndims);
+            let f = &flows[if d[2] == 0 { 0 } else { 3 }];
+            let pl = &near[d[0] as usize].1;
+            if d[1] == 0 {
+                vec![Cmd::Frame(f.udp(pl))]
+            } else {
+                let c = cookies.get(&key_of(f)).copied().unwrap_or(0).wrapping_add(1);
+                vec![Cmd::Frame(f.tcp(1000, c, crate::wire::F_PSH | crate::wire::F_ACK, pl))]
+            }
+        },
+        |it: &Item, sk: &mut Sink| {
+            sk.count("frames", 1);
+            let d = engine::unrank(it.idx, &ndims);
+            let (name, pl) = &near[d[0] as usize];
+            let at_end = d[1] == 0;
+            let dead = matches!(crate::sig::dispatch(&sigs2, pl, at_end), crate::sig::Dispatch::Dead | crate::sig::Dispatch::Pending);
+            if !dead {
+                return;
+            }
+            if let Some((_, app)) = it.outs[1].reply.as_deref().and_then(crate::mask::app_payload) {
+                if app.is_empty() {
+                    return;
+                }
+                let r = responder(&app);
+                sk.class(&format!("near-miss-answered-by:{}", r));
+                if r != "other" {
+                    sk.violation(Violation {
+                        prop: "C10".into(),
+                        key: format!("no-signature-answered-by:{}", r),
+                        what: format!("payload '{}' ({}) completes no published signature but is answered by the {} responder: {}", name, crate::wire::hex(&pl[..pl.len().min(40)]), r, crate::wire::hex(&app[..app.len().min(40)])),
+                        cfg: cfgn.clone(),
+                        cmds: it.cmds.to_vec(),
+                        idx: it.idx,
+                        stage: "near-miss".into(),
+                    });
+                }
+            }
+        },
+        &mut rep.sink,
+    );
+    rep.stage("near-miss", "every corpus request with one signature byte altered (3 alterations per position) or with trailing bytes, over UDP and as a first TCP segment, IPv4 and IPv6: no signature-dispatched responder may answer when the reference says no signature completes", engine::product(&ndims), t0);
     let _ = thorough;
 }
